@@ -214,6 +214,8 @@ def zero(t):
         return tuple(zero(f['type']) for f in (x.get('fields') or []))
     if k == 'float':
         return 0.0
+    if k == 'basic':   # "invalid type": unused component of a range tuple
+        return None
     raise Unsupported('zero ' + k)
 
 
